@@ -235,14 +235,22 @@ pub fn judge_c14(u: &UriCase, p: &Probe) -> Judge {
 
 pub fn run_c14(ctx: &Ctx) {
     crate::c11::use_empty_trust_store();
-    ctx.set_rule("proptest-generated target URIs (as C13) mapped through the hook verif_transport_url (the private function both clients call); result split by the harness's own splitter: ipp->http, ipps->https, port = explicit port else 631 for both schemes, user-info/host/path(empty==/)/query unchanged byte-for-byte; http/https unchanged. Non-trivial = scheme ipp/ipps and (IPv6 host or user-info or no port or query); distinct by URI string. Plus live cases per run (40 quick / 400 thorough) through a loopback HTTP server with explicit ports, tying the hooked function to what both clients really dial (request line, Host header).");
+    ctx.set_rule("proptest-generated target URIs (as C13) mapped through the hook verif_transport_url (the private function both clients call); result split by the harness's own splitter: ipp->http, ipps->https, port = explicit port else 631 for both schemes, user-info/host/path(empty==/)/query unchanged byte-for-byte; http/https unchanged. Non-trivial = scheme ipp/ipps and (IPv6 host or user-info or no port or query); distinct by URI string. Plus live cases per run (40 quick / 400 thorough) through a loopback HTTP server with explicit ports, tying the hooked function to what both clients really dial (request line, Host header), and 3 live cases checking that the target's user-info reaches the HTTP layer (observable as the Authorization header the backends derive from it).");
     let (shards, per) = ctx.tier.pick((16, 25000), (16, 400000));
     run_prop(ctx, "transport-url", shards, per, uri_case, judge_c14, |u| u.to_json());
     // live: what both clients really dial for ipp:// targets with explicit ports (request line, Host)
     crate::c11::live_c14(ctx, ctx.tier.pick(40, 400));
+    crate::c11::live_userinfo(ctx);
 }
 
 pub fn replay_c14(ctx: &Ctx, _sub: &str, case: &Value) -> Judge {
+    if case.get("live_userinfo").is_some() || case.get("live_uri_template").is_some() {
+        crate::c11::use_empty_trust_store();
+        let before = ctx.violation_count();
+        crate::c11::live_userinfo(ctx);
+        crate::c11::live_c14(ctx, 40);
+        return if ctx.violation_count() > before { Err(Fail::new("C14/live", "reproduced (see the replay files just written)".to_string())) } else { Ok(()) };
+    }
     let u = UriCase::from_json(case).ok_or_else(|| Fail::new("bad-replay", "uri"))?;
     judge_c14(&u, &Probe { ctx, counting: false })
 }
